@@ -53,7 +53,7 @@ struct Race { uintptr_t addr; int t1, t2; bool w1, w2; };
 struct Sim {
     bool active; int n; Thr t[MAXT]; volatile int current;
     Rng rng; unsigned preemptNum, preemptDen; bool biasLock; int afterLock;
-    uint64_t steps, budget; bool noPreempt;
+    uint64_t steps, budget; bool noPreempt; uint64_t changePoints[4]; int nChangePoints;      // PCT-like: a handful of forced preemptions at seeded steps, none elsewhere
     Vec<int64_t> recorded;            // (step, to) pairs
     const Vec<int64_t>* replay; size_t replayPos;
     uint64_t switches; Hash order;
@@ -100,6 +100,7 @@ static void schedPoint(bool lockEdge = false) {
     bool want;
     if (S.replay) want = S.replayPos + 1 < S.replay->size() && (uint64_t)(*S.replay)[S.replayPos] <= S.steps;
     else if (S.noPreempt) want = false;
+    else if (S.nChangePoints) { want = false; for (int k = 0; k < S.nChangePoints; k++) if (S.changePoints[k] == S.steps) want = true; }
     else if (S.biasLock && lockEdge) want = true;
     else want = S.rng.below(S.preemptDen) < S.preemptNum;
     if (!want) return;
@@ -366,6 +367,7 @@ struct Engine : public vf::Engine {
         if (misuse) nThreads = (int)w.range(1, 4);
         static const int dens[] = { 2, 3, 4, 8, 16, 32, 64 };
         d.p["preempt_den"] = dens[w.below(7)]; d.p["bias_lock"] = w.chance(1, 4);
+        if (w.chance(1, 4)) { d.p["few_points"] = w.range(1, 4); static const int spans[] = { 200, 1000, 4000, 12000 }; d.p["few_span"] = spans[w.below(4)]; d.p["bias_lock"] = 0; }      // long uninterrupted stretches with 1-4 preemptions
         d.p["misuse"] = misuse;
         if (misuse) {
             Group T; T.tag = "test";
@@ -409,6 +411,7 @@ struct Engine : public vf::Engine {
 
         // reset the simulator
         S.n = (int)scripts.size() + 1; S.rng.reseed(mix64(d.seed, 4242)); S.preemptNum = 1; S.preemptDen = (unsigned)d.pi("preempt_den", 8); S.biasLock = d.pi("bias_lock") != 0;
+        S.nChangePoints = (int)d.pi("few_points"); if (S.nChangePoints > 4) S.nChangePoints = 4; for (int k = 0; k < S.nChangePoints; k++) S.changePoints[k] = 1 + S.rng.below((uint64_t)d.pi("few_span", 4000));
         S.steps = 0; S.budget = 4000000; S.noPreempt = false; S.recorded.clear(); S.replay = d.schedule.empty() ? 0 : &d.schedule; S.replayPos = 0; S.switches = 0; S.order = Hash();
         S.deadlock = S.selfDeadlock = S.unlockByOther = S.budgetExceeded = false; S.deadlockDetail.clear(); S.races.clear(); S.accesses = 0; S.reports = 0; S.firstReport.clear();
         shadowGen++;
@@ -491,6 +494,7 @@ struct Engine : public vf::Engine {
     }
     void simplifications(const Desc& d, Vec<Desc>& out) {
         if (d.pi("bias_lock")) { Desc c = d; c.p["bias_lock"] = 0; out.push_back(c); }
+        if (d.pi("few_points") > 1) { Desc c = d; c.p["few_points"] = d.pi("few_points") - 1; out.push_back(c); }
         if (d.schedule.size() > 2) { Desc c = d; c.schedule.erase(c.schedule.begin(), c.schedule.begin() + 2); out.push_back(c); }
     }
 };
